@@ -137,6 +137,17 @@ def find_code(src, pattern, start=0, end=None, mask=None):
         pos = m.end() if m.end() > m.start() else m.end() + 1
 
 
+def brace_depth(src, a, b, mask):
+    d = 0
+    for k in range(a, b):
+        if mask[k]:
+            if src[k] == '{':
+                d += 1
+            elif src[k] == '}':
+                d -= 1
+    return d
+
+
 def line_of(src, idx):
     return src.count('\n', 0, idx) + 1
 
@@ -186,6 +197,8 @@ def find_fn(src, name, start=0, end=None, mask=None, cfg=None, nth=None):
     rx = re.compile(r'\bfn\s+' + re.escape(name) + r'\b')
     hits = []
     for m in find_code(src, rx, start, end, mask):
+        if brace_depth(src, start, m.start(), mask) != 0:
+            continue   # only direct children of the scope
         # find body '{' : first '{' at bracket depth 0 after the parameter list; stop at ';' (declaration only)
         j = m.end()
         depth = 0
